@@ -66,3 +66,15 @@ reg("C11", "exploration", "reference fixpoint vs limit sentinels over limit grid
     "No run cut short by a limit may look like success; every entry point must honour options; after every outcome kind (27 shapes + authorizer-level) the goroutine profile must show no goroutine of the call parked forever.",
     "Quiescence restated as: parked on a private channel for 5 consecutive polls; duration verdict has 10 s slack.",
     "DESIGN.md 3/C11")
+reg("C14", "exploration", "grammar-generator reference (R4: expected value computed from the syntax tree) + negative catalogue + panic and add-safety monitors over corruptions",
+    "Texts are printed from randomly drawn syntax trees with exactly the parentheses the documented precedence requires (plus redundant ones) and random layout; the parse must equal the value computed from the tree; a negative catalogue must be rejected; corrupted texts must neither panic nor produce values that panic when added to builders / authorizers.",
+    "GRAMMAR.md is the documented grammar; explored lexical domain stated in the evidence rule.",
+    "DESIGN.md 3/C14")
+reg("C15", "exploration", "round-trip monitor parse -> build -> print -> parse against the first parse; print equality across serialization",
+    "Grammar-generated blocks in the printable domain are built into tokens at positions 0-3, printed and parsed back; the second parse must equal the first; String()/Code() must not panic and be identical before and after serialization.",
+    "The first parse is the reference.",
+    "DESIGN.md 3/C15")
+reg("C19", "exploration", "Go race detector over a shared-token stress workload + constant-state sequential model",
+    "All cases run in the -race build: 2-16 goroutines share one token (built / re-loaded / sealed), a parser instance and parsed values; race reports are collected from the race log; every concurrent result must equal the same call made alone; evidence lists which operation pairs really overlapped.",
+    "Only races between accesses executed in the same run are visible; repetition counts are in the evidence.",
+    "DESIGN.md 3/C19")
